@@ -149,8 +149,12 @@ def replay_wrapper(pid, spec, name, cex, oracle):
                {"label": "adversarial-hints", "mode": "adversarial", "named": cex["named"], "classes": cex["classes"]}]
     rp = csxlib.replay(pid, spec, assigns)
     ok, reasons = False, []
+    if "the wrapper is satisfiable" in name:
+        # completeness counterexample: reproduced when the real prover cannot prove an input the spec accepts
+        ok = not rp[0].get("accepted")
+        reasons = ["real prover fails on an input that satisfies the acceptance condition: " + str(rp[0].get("detail"))] if ok else []
     for o in rp:
-        if o.get("accepted"):
+        if o.get("accepted") and "the wrapper is satisfiable" not in name:
             why = oracle(cex["named"], o["public_inputs"])
             o["contradicts_spec"] = why
             if why:
@@ -186,6 +190,7 @@ def _c06_b(Pv, tier, to):
 _PRIV_PARTS = {
     "c06a": _c06_a, "c06b": _c06_b,
     "c07": lambda Pv, tier, to: wrappers.c07_only_if(Pv, tier, timeout_s=to),
+    "c07if": lambda Pv, tier, to: wrappers.c07_if(Pv, tier, timeout_s=to),
     "c08": lambda Pv, tier, to: wrappers.c08(Pv, tier, timeout_s=to),
     "c09": lambda Pv, tier, to: wrappers.c09_circuit(Pv, tier, timeout_s=to),
     "c10": lambda Pv, tier, to: wrappers.c10_priv(Pv, tier, timeout_s=to),
@@ -249,7 +254,7 @@ def c06(pid, tier):
 
 @register("C07")
 def c07(pid, tier):
-    return run_priv(pid, tier, ["c07"], [1, 2, 3] if tier == "quick" else [1, 2, 3, 4])
+    return run_priv(pid, tier, ["c07", "c07if"], [1, 2, 3] if tier == "quick" else [1, 2, 3, 4])
 
 
 @register("C08")
@@ -277,7 +282,7 @@ def _pub_job(m, n, part, tier, validate):
     Pb = wrappers.Pub(ir, m, n)
     names = [f"child_{i}" for i in range(m)] + ["addr"]
     nval, vfails = (csxlib.validate_witnesses(Pb.sx, ir) if validate else (0, []))
-    s = {"c12": wrappers.c12, "c13": wrappers.c13_only_if, "c10": wrappers.c10_pub}[part](Pb, tier)
+    s = {"c12": wrappers.c12, "c13": wrappers.c13_only_if, "c13if": wrappers.c13_if, "c10": wrappers.c10_pub}[part](Pb, tier)
     return {"results": _extract(s, Pb.sx, ir, names), "nval": nval, "vfails": vfails, "stats": Pb.stats(), "key": (m, n, part)}
 
 
@@ -324,7 +329,7 @@ def c12(pid, tier):
 
 @register("C13")
 def c13(pid, tier):
-    return run_pub(pid, tier, ["c13"], PUB_SIZES_Q if tier == "quick" else PUB_SIZES_T)
+    return run_pub(pid, tier, ["c13", "c13if"], PUB_SIZES_Q if tier == "quick" else PUB_SIZES_T)
 
 
 # ----------------------------------------------------------------------------- C10
